@@ -42,6 +42,8 @@ pub struct RunCfg {
     pub workers: usize,
     /// multiply case counts (VERIF_SCALE, default 1.0) — for experiments
     pub scale: f64,
+    /// /verif (known_findings.json, known/, replays/, evidence/)
+    pub root: String,
 }
 
 impl RunCfg {
